@@ -38,6 +38,9 @@ type Val struct {
 	// interface value statically known to wrap a pointer to a sub-location (e.g. heap.Interface(&b.items))
 	BoxLoc *Loc
 	BoxTy  types.Type
+	// time.Time values: the location the value carries (term of sort Int: a *time.Location reference, zone_utc or
+	// zone_local); "" = not known. Only the calendar functions (Hour, Day, ...) depend on it.
+	Zone string
 }
 
 type iterInfo struct {
